@@ -6,6 +6,7 @@ import (
 	"go/parser"
 	"go/token"
 	"go/types"
+	"golang.org/x/tools/go/packages"
 	"os"
 	"path/filepath"
 	"regexp"
@@ -21,6 +22,7 @@ func init() { register("C09", propC09) }
 func propC09(c *Ctx) propInfo {
 	c.generatorDeterminism("tl/parser", "tlb/parser", "abi/parser", "utils")
 	c.generatorIDVerbs()
+	c.generatorRefTag()
 	c.generatorTemplates()
 	c.floor("E12.generator-determinism", 5)
 	c.floor("E12.generator-id-format", 3)
@@ -183,6 +185,66 @@ func (c *Ctx) generatorIDVerbs() {
 			return true
 		})
 	}
+	// the tlSumType tag of a generated wrapper: the text between the quotes must be the id as exactly 8 hex digits.
+	// Either the verb there is %08x, or it is %s/%v and the argument is (a local holding / a helper returning)
+	// fmt.Sprintf("%08x", id). A pre-formatted "%#x" with the prefix trimmed, "%x", "%d" ... lose the padding.
+	anyVerb := regexp.MustCompile(`%[-+# 0]*[0-9]*(\.[0-9]+)?[a-zA-Z%]`)
+	nTag := 0
+	for _, f := range p.Syntax {
+		var fnStack []*ast.FuncDecl
+		_ = fnStack
+		for _, d := range f.Decls {
+			fd, ok := d.(*ast.FuncDecl)
+			if !ok || fd.Body == nil {
+				continue
+			}
+			ast.Inspect(fd.Body, func(nd ast.Node) bool {
+				call, ok := nd.(*ast.CallExpr)
+				if !ok {
+					return true
+				}
+				fi := -1
+				format := ""
+				for i, a := range call.Args {
+					if lit, ok := a.(*ast.BasicLit); ok && lit.Kind == token.STRING {
+						if s, err := strconv.Unquote(lit.Value); err == nil && strings.Contains(s, "tlSumType:\"") {
+							fi, format = i, s
+						}
+					}
+				}
+				if fi < 0 {
+					return true
+				}
+				at := strings.Index(format, "tlSumType:\"") + len("tlSumType:\"")
+				// which verb stands right after the opening quote, and which argument feeds it
+				argIdx := fi + 1
+				verbAt := ""
+				for _, loc := range anyVerb.FindAllStringIndex(format, -1) {
+					v := format[loc[0]:loc[1]]
+					if v == "%%" {
+						continue
+					}
+					if loc[0] == at {
+						verbAt = v
+						break
+					}
+					if loc[0] < at {
+						argIdx++
+					}
+				}
+				nTag++
+				okTag := verbAt == "%08x"
+				why := "the tlSumType tag is written with " + strconv.Quote(verbAt)
+				if (verbAt == "%s" || verbAt == "%v") && argIdx < len(call.Args) {
+					okTag = c.eightHexDigits(p, fd, call.Args[argIdx], 0)
+					why = "the tlSumType tag is written with " + verbAt + " from " + types.ExprString(call.Args[argIdx]) + ", which is not fmt.Sprintf(\"%08x\", id)"
+				}
+				c.check(okTag, R, "tlSumType tag is the id as 8 hex digits in "+fd.Name.Name, call.Pos(), "%08x (directly, or through a value formatted with it)", "the TL compiler: "+why+": ids with leading zero nibbles get fewer than 8 hex digits and the generated request cannot be encoded (tl.encodeTag needs exactly 4 bytes)")
+				return true
+			})
+		}
+	}
+	c.check(nTag >= 1, R, "tlSumType tag emission found", token.NoPos, fmt.Sprintf("%d site(s)", nTag), "no format string with a tlSumType tag found in tl/parser (anchor moved?)")
 	// decoding.tmpl
 	b, err := os.ReadFile(filepath.Join(c.RepoDir, "tl", "parser", "decoding.tmpl"))
 	if err == nil {
@@ -444,4 +506,139 @@ func (c *Ctx) generatorOutputFiles(rels ...string) {
 		}
 	}
 	_ = n
+}
+
+// eightHexDigits: expression e (in function fd of package p) is a string produced by fmt.Sprintf("%08x", _):
+// the call itself, a local assigned once from it, or a call of a package function all of whose returns are.
+func (c *Ctx) eightHexDigits(p *packages.Package, fd *ast.FuncDecl, e ast.Expr, depth int) bool {
+	if depth > 3 {
+		return false
+	}
+	switch x := e.(type) {
+	case *ast.ParenExpr:
+		return c.eightHexDigits(p, fd, x.X, depth+1)
+	case *ast.CallExpr:
+		if sel, ok := x.Fun.(*ast.SelectorExpr); ok {
+			if id, ok := sel.X.(*ast.Ident); ok && id.Name == "fmt" && sel.Sel.Name == "Sprintf" && len(x.Args) == 2 {
+				if lit, ok := x.Args[0].(*ast.BasicLit); ok {
+					s, _ := strconv.Unquote(lit.Value)
+					return s == "%08x"
+				}
+			}
+			return false
+		}
+		if id, ok := x.Fun.(*ast.Ident); ok {
+			for _, f := range p.Syntax {
+				for _, d := range f.Decls {
+					g, ok := d.(*ast.FuncDecl)
+					if !ok || g.Recv != nil || g.Name.Name != id.Name || g.Body == nil {
+						continue
+					}
+					okAll, n := true, 0
+					ast.Inspect(g.Body, func(nd ast.Node) bool {
+						if _, isLit := nd.(*ast.FuncLit); isLit {
+							return false
+						}
+						if r, ok := nd.(*ast.ReturnStmt); ok {
+							n++
+							if len(r.Results) != 1 || !c.eightHexDigits(p, g, r.Results[0], depth+1) {
+								okAll = false
+							}
+						}
+						return true
+					})
+					return okAll && n > 0
+				}
+			}
+		}
+	case *ast.Ident:
+		obj := p.TypesInfo.Uses[x]
+		if obj == nil {
+			return false
+		}
+		var rhs []ast.Expr
+		ast.Inspect(fd.Body, func(nd ast.Node) bool {
+			switch st := nd.(type) {
+			case *ast.AssignStmt:
+				for i, l := range st.Lhs {
+					if li, ok := l.(*ast.Ident); ok && (p.TypesInfo.Defs[li] == obj || p.TypesInfo.Uses[li] == obj) {
+						if len(st.Rhs) == len(st.Lhs) {
+							rhs = append(rhs, st.Rhs[i])
+						} else {
+							rhs = append(rhs, nil)
+						}
+					}
+				}
+			case *ast.ValueSpec:
+				for i, n := range st.Names {
+					if p.TypesInfo.Defs[n] == obj {
+						if i < len(st.Values) {
+							rhs = append(rhs, st.Values[i])
+						} else {
+							rhs = append(rhs, nil)
+						}
+					}
+				}
+			}
+			return true
+		})
+		if len(rhs) != 1 || rhs[0] == nil {
+			return false
+		}
+		return c.eightHexDigits(p, fd, rhs[0], depth+1)
+	}
+	return false
+}
+
+// generatorRefTag: the TL-B compiler marks a field that is an unnamed cell reference (^T, ^[ ... ]) with the
+// struct tag "^" - otherwise the reflection codec inlines the referenced content into the parent cell. The tag is
+// written in fieldDefinitionsToStruct; the constant must be used where the FIELD is known to be a reference
+// (FieldDefinition.CellRef != nil), not where some other value that also has a CellRef member is.
+func (c *Ctx) generatorRefTag() {
+	const R = "E12.generator-ref-tag"
+	f := c.mustFn(R, "tlb/parser", "fieldDefinitionsToStruct")
+	if f == nil {
+		return
+	}
+	isRefTag := func(v ssa.Value) bool {
+		s, ok := constString(v)
+		return ok && (s == "^" || strings.Contains(s, "tlb:\"^\""))
+	}
+	n := 0
+	// (the type-expression level, toGolangType, has its own "^" for ^T inside a type; this rule is about the field)
+	for _, g := range []*ssa.Function{f} {
+		allInstrs(g, func(b *ssa.BasicBlock, in ssa.Instruction) {
+			for i, op := range in.Operands(nil) {
+				if op == nil || *op == nil || !isRefTag(*op) {
+					continue
+				}
+				at := b
+				if ph, ok := in.(*ssa.Phi); ok && i < len(ph.Edges) {
+					at = b.Preds[i]
+				}
+				n++
+				okv := false
+				for _, ft := range factsAt(g, at) {
+					bo, ok := ft.Cond.(*ssa.BinOp)
+					if !ok || !((bo.Op == token.NEQ && ft.Truth) || (bo.Op == token.EQL && !ft.Truth)) {
+						continue
+					}
+					x := bo.X
+					if isNilConst(x) {
+						x = bo.Y
+					} else if !isNilConst(bo.Y) {
+						continue
+					}
+					if ld, ok := x.(*ssa.UnOp); ok && ld.Op == token.MUL {
+						x = ld.X
+					}
+					if tn, fn, ok := fieldOf(x); ok && fn == "CellRef" && strings.HasSuffix(tn, ".FieldDefinition") {
+						okv = true
+					}
+				}
+				c.check(okv, R, "the reference tag is written for fields that are cell references", in.Pos(), "\"^\" used under FieldDefinition.CellRef != nil", "fieldDefinitionsToStruct writes the \"^\" struct tag under a condition that does not test the field's own CellRef (FieldDefinition.CellRef != nil): an unnamed reference field ^T / ^[...] loses its tag and the generated type encodes the referenced content inline")
+			}
+		})
+	}
+	c.check(n >= 1, R, "reference tag emission found", f.Pos(), fmt.Sprintf("%d use(s) of the \"^\" tag", n), "fieldDefinitionsToStruct no longer writes a \"^\" tag for unnamed reference fields (anchor moved?)")
 }
